@@ -42,13 +42,13 @@ type netDef struct {
 }
 
 type podDef struct {
-	Name     string   `json:"name"`
-	Form     int      `json:"form"` // 0 no networks annotation, 1 comma list, 2 JSON list
-	Nets     []int    `json:"nets"`
-	IfNames  []string `json:"ifnames"`
-	WithNs   bool     `json:"with_ns"` // comma form written as ns/net
-	WantENI  bool     `json:"want_eni"`
-	ExtArgs  bool     `json:"ext_args"`
+	Name    string   `json:"name"`
+	Form    int      `json:"form"` // 0 no networks annotation, 1 comma list, 2 JSON list
+	Nets    []int    `json:"nets"`
+	IfNames []string `json:"ifnames"`
+	WithNs  bool     `json:"with_ns"` // comma form written as ns/net
+	WantENI bool     `json:"want_eni"`
+	ExtArgs bool     `json:"ext_args"`
 }
 
 type reqDef struct {
